@@ -77,7 +77,7 @@ impl Gen<'_> {
         let pgav = parent.map(|p| self.infos[p].gav.clone());
         let parent_eff = pgav.as_ref().map(|g| eff(&self.stage, g));
         // ---- identity
-        let (mut g_inh, mut v_inh) = (false, false);
+        let (mut g_inh, mut v_inh);
         let mut gav;
         let mut tries = 0;
         loop {
@@ -203,7 +203,8 @@ impl Gen<'_> {
             if own_keys.contains(&key) || inherited_dep_keys.contains(&key) { continue; }
             let eff_scope = d.scope.or(managed.get(&key).and_then(|m| m.1)).unwrap_or(Scope::Compile);
             let cut = d.optional == Some(true) || matches!(eff_scope, Scope::Test | Scope::Provided | Scope::System);
-            if cut && d.version.is_some() && self.rng.chance(6, 100) {
+            let own_cut = d.optional == Some(true) || matches!(d.scope, Some(Scope::Test | Scope::Provided | Scope::System));
+            if own_cut && d.version.is_some() && self.rng.chance(6, 100) {
                 // a cut dependency need not be published anywhere the resolver looks
                 d.version = Some("0.0-unpublished".into());
                 self.info.missing_cut_targets += 1;
@@ -249,6 +250,10 @@ impl Gen<'_> {
                     }
                 }
             }
+        }
+        if self.stage.roots.is_empty() {
+            let i = self.infos.iter().rev().find(|i| !i.pom_pkg).expect("the first POM is a library");
+            self.stage.roots.push((Coord { group: i.gav.g.clone(), artifact: i.gav.a.clone(), version: i.gav.v.clone(), classifier: None, type_: "jar".into() }, Scope::Compile));
         }
     }
 
